@@ -61,7 +61,7 @@ def run(c):
             if not (okl and okf):
                 cls += '+model-disagrees'
             if guarded[i]:
-                cls += '+inside-fast_large_run_equiv_hist'
+                cls += '+inside-fast_large_run_equiv_histp'
             diffs.setdefault(cls, []).append(i)
     # the W3C IRP corpus, both engines (thorough: all; quick: a sample)
     irp = irp_compare(c)
@@ -73,8 +73,8 @@ def run(c):
     c.cov['engine_differences'] = {k: len(v) for k, v in diffs.items()}
     c.cov['fast_large_run_equiv_reach'] = {'cases': len(cases), 'eq_chartb': sum(1 for r in reach if r.get('eq', (False,))[0]),
                                            'eq_chartb+eq_guard_run (core theorem applies)': sum(1 for r in reach if all(r.get('eq', (False,)))),
-                                           'eq_chartb_hist': sum(1 for r in reach if r.get('eqh', (False,))[0]),
-                                           'eq_chartb_hist+eq_guard_run_hist (theorem with <initial>/<history> applies)': sum(1 for g in guarded if g)}
+                                           'eq_chartb_histp': sum(1 for r in reach if r.get('eqh', (False,))[0]),
+                                           'eq_chartb_histp+eq_guard_run_hist (theorem with <initial>/<history>, also below <parallel>, applies)': sum(1 for g in guarded if g)}
     c.cov['model_disagreements'] = {k: len(v) for k, v in mdis.items()}
     c.cov['irp'] = irp
     c.cov['samples'] = [{'scxml': G.to_scxml(cases[i]['tree'], cases[i]['dm'])[:400], 'events': [e.decode() for e in cases[i]['events']], 'large': res['large'][i][:300], 'fast': res['fast'][i][:300]}
